@@ -3,6 +3,7 @@ package main
 // C10 — a UDP datagram is processed in isolation from every other datagram.
 
 import (
+	"strconv"
 	"MODULEPATH/zzverif/fakenet"
 	"MODULEPATH/zzverif/rt"
 )
@@ -18,20 +19,34 @@ func (h *vHandler) HandleMessage(msg *Message)       {}
 // genDatagram: a small message whose declared Content-Length is <, = or > the body it carries,
 // optionally cut short.
 func genDatagram(L int, i int) string {
+	d, _ := genDatagram2(L, i)
+	return d
+}
+
+// c10Short: set by genDatagram2 — the datagram declares more body bytes than it carries (decided from how it was built).
+var c10Short bool
+
+// genDatagram2 also says — from the way the datagram was built, not from any decoder — whether its header section is
+// complete (the empty line that ends it is there).
+func genDatagram2(L int, i int) (string, bool) {
 	body := rt.Str("body", "any", 0, L)
 	cl := rt.Str("cl", "digit", 1, 1)
 	base := "OPTIONS sip:a@b SIP/2.0\r\nCall-ID: d" + itoa(i) + rt.Str("id", "alnum", 1, L) + "\r\nContent-Length: " + cl + "\r\n\r\n" + body
+	declared, _ := strconv.Atoi(cl)
+	c10Short = len(body) < declared
 	switch rt.Choice("cut", 4) {
 	case 1:
-		return base[:len(base)-len(body)] // body missing
+		c10Short = declared > 0
+		return base[:len(base)-len(body)], true // body missing
 	case 2:
-		return base[:len(base)-len(body)-2] // ends before the header section is complete
+		return base[:len(base)-len(body)-2], false // ends before the header section is complete
 	case 3:
 		n := rt.Int("cutpos", 0, 12)
 		rt.Assume(n <= len(base))
-		return base[:len(base)-n]
+		c10Short = n <= len(body) && len(body)-n < declared
+		return base[:len(base)-n], n <= len(body)
 	}
-	return base
+	return base, true
 }
 
 // VC10_Isolation: the real UDP server transport on a fakenet socket; K datagrams back to back
@@ -67,9 +82,10 @@ func VC10_Isolation() {
 		rt.Sched(rt.Param("SW"), false)
 		var want []string
 		for i := 0; i < K; i++ {
-			d := genDatagram(L, i)
+			d, hdrComplete := genDatagram2(L, i)
 			sock.Deliver("10.0.2."+itoa(i+1)+":5060", []byte(d))
 			if ref, rerr := parseText(d); rerr == nil {
+				rt.Assert(hdrComplete, "only a datagram whose header section is complete decodes")
 				want = append(want, ref.String())
 			}
 		}
@@ -84,10 +100,16 @@ func VC10_Isolation() {
 		return
 	}
 	for i := 0; i < K; i++ {
-		d := genDatagram(L, i)
+		d, hdrComplete := genDatagram2(L, i)
 		before := len(h.got)
 		sock.Deliver("10.0.2."+itoa(i+1)+":5060", []byte(d))
 		rt.Quiesce()
+		if !hdrComplete {
+			// independent of the decoder: the empty line that ends the header section never arrived
+			rt.Assert(len(h.got) == before, "a datagram cut inside its header section is discarded")
+		} else if c10Short {
+			rt.Assert(len(h.got) == before, "a datagram that declares more body bytes than it carries is discarded")
+		}
 		// reference: the same decoder on exactly the datagram's bytes in a fresh buffer
 		ref, rerr := parseText(d)
 		if rerr != nil {
